@@ -161,6 +161,15 @@ def correspondence(ctx):
         {'src': 'import random\nitems = []\nprint("start")\nchosen = random.choice(items)\nprint("unreachable")\n', 'inputs': [], 'calls': []},
         {'src': 'import statistics\nimport json\ndef average(xs):\n    total = 0\n    return statistics.mean(xs)\ndef parse(t):\n    return json.loads(t)\n'
                 'print(average([1, 2, 3]))\n', 'inputs': [], 'calls': [['average', ['[]']], ['parse', ["'{oops'"]], ['average', ['[4, 6]']]]},
+        # several arguments that cannot be pasted as source (each needs its own temporary)
+        {'src': 'def merge(a, b):\n    return sorted(a | b)\ndef cat(a, b, c=None):\n    return a + b + (c or [])\n', 'inputs': [],
+         'calls': [['merge', ['frozenset({1, 2})', 'frozenset({3})']], ['cat', ['list(range(100))', 'list(range(100, 200))']],
+                   ['cat', ['list(range(100))', 'list(range(100, 200))', 'list(range(300, 400))']], ['merge', ['{1}', 'frozenset({9})']]]},
+        # a dotted library module imported in one execution and again, in the other form, in a later one
+        {'src': 'import html.parser\ndef tag():\n    from html.parser import HTMLParser\n    return HTMLParser.__name__\nprint(html.parser.__name__)\n',
+         'inputs': [], 'calls': [['tag', []], ['tag', []]]},
+        {'src': 'from xml.dom import minidom\ndef doc():\n    import xml.dom.minidom\n    return xml.dom.minidom.__name__\nprint(minidom.__name__)\n',
+         'inputs': [], 'calls': [['doc', []]]},
         # leading blank space belongs to the line
         {'src': 'for i in range(3):\n    print(" " * (3 - i) + "*" * (2 * i + 1))\nprint("\\titem\\t3")\ndef receipt():\n    print("  total:  5")\n',
          'inputs': [], 'calls': [['receipt', []]]},
